@@ -96,7 +96,9 @@ func knownSynthesizedArrow(c Case, in *jsref.Program, out *jsref.Program) string
 			for _, x := range n.List {
 				walk(x, true)
 			}
-			walk(n.B, false)
+			// the body of an arrow that itself stands in a parameter list is still part of that list
+			// (`a?.b?.c` in a default value gives shape-B arrows nested in each other)
+			walk(n.B, params && n.Type == jsref.NArrow)
 			return
 		}
 		walk(n.A, params)
